@@ -482,12 +482,23 @@ def explore_surface(cx: SurfCtx):
                 obs = runA["states"][-1]
                 rep.outcome(kind, (len(obs["V"]) - len(st["V"]), len(obs["F"]) - len(st["F"])))
                 cls = f"state_arity{_arity_class(st['F'])}:{'closed' if cx.closed else 'bordered'}"
+                # a quad of the state one of whose diagonals is already an edge: a fixed choice of diagonal can
+                # collide with it; everything that goes wrong then is reported under ONE fingerprint
+                taken = [] if kind == "FAN" else R.quad_with_taken_diagonal(st["F"], None if arg is None else {arg})
                 try:
-                    rep.evaluations += 4
+                    rep.evaluations += 5
                     Pex, stats = R.validate_surface_step(st["P"], st["V"], st["F"], kind, None if arg is None else [arg], obs["V"], obs["F"])
+                    if not F.is_oriented_manifold(obs["F"], len(obs["V"])):
+                        raise R.StepFailure("valid_mesh", "not_an_oriented_manifold", {})
                     after = {"V": obs["V"], "F": obs["F"], "E": obs["E"], "P": Pex, "depth": st["depth"] + 1}
                 except R.StepFailure as sf:
-                    rep.violation("C13.surf." + sf.clause, callee, "mismatch:" + sf.label, cls, cx.detail(seq2, **sf.detail))
+                    if taken:
+                        rep.violation("C13.surf.valid_mesh", S_CALLEE["TF"], "mismatch:quad_split_along_an_existing_edge", "quad_diagonal_already_an_edge",
+                                      cx.detail(seq2, operation=callee, clause=sf.clause, label=sf.label, quads=taken, state_faces_before=st["F"][:10], **sf.detail))
+                    else:
+                        rep.violation("C13.surf." + sf.clause, callee, "mismatch:" + sf.label, cls, cx.detail(seq2, **sf.detail))
+                if taken:
+                    rep.flag("quad_with_taken_diagonal")
                 sres = None
                 if after is not None:
                     opcls = "+".join(sorted(set(k for k, _ in seq2))) + ":" + cx.icls
